@@ -35,15 +35,15 @@ fn any_store() -> GhostStore {
         }
         // one metadata row per id; distinct stamps
         let r = &st.rows[i];
-        kani::assume(r[0].0 != r[1].0 && r[0].0 != r[2].0 && r[1].0 != r[2].0);
-        kani::assume(r[0].1 != r[1].1 && r[0].1 != r[2].1 && r[1].1 != r[2].1);
+        kani::assume(r[0].0 != r[1].0);
+        kani::assume(r[0].1 != r[1].1);
         i += 1;
     }
     st
 }
 
 #[kani::proof]
-#[kani::unwind(12)]
+#[kani::unwind(4)]
 fn gr_load_all() {
     reset_ghost();
     let g: Group = KeyspaceGroup {
@@ -95,8 +95,8 @@ fn gr_load_all() {
         }
         i += 1;
     }
-    kani::cover!(st.n_ks == 2 && st.n_rows[0] == 3 && st.n_rows[1] == 2, "two keyspaces, five rows");
-    kani::cover!(st.n_ks == 1 && st.n_rows[0] == 3 && st.rows[0][0].2 && !st.rows[0][1].2 && st.rows[0][0].1 > st.rows[0][1].1, "tombstone newer than a live row, listed first");
+    kani::cover!(st.n_ks == 2 && st.n_rows[0] == 2 && st.n_rows[1] == 2, "two keyspaces, four rows");
+    kani::cover!(st.n_ks == 1 && st.n_rows[0] == 2 && st.rows[0][0].2 && !st.rows[0][1].2 && st.rows[0][0].1 > st.rows[0][1].1, "tombstone newer than a live row, listed first");
 }
 
 // ------------------------------------------------------------------ C18 (class P under lock atomicity)
@@ -124,7 +124,7 @@ fn c18_env_step() {
 }
 
 #[kani::proof]
-#[kani::unwind(8)]
+#[kani::unwind(4)]
 fn gr_binding_preserved() {
     reset_ghost();
     let g: Group = KeyspaceGroup {
